@@ -35,7 +35,8 @@ def modes(rng, family):
     if family == "spin":
         return [a, s] if rng.random() < 0.7 else [s, c1]
     if family == "ladder":
-        return [lad] + ([a] if rng.random() < 0.4 else [])
+        # Floquet-like: a ladder mode alone, with a boson, or with a two-level system / fermion
+        return [lad] + [[], [a], [s], [c1], [s]][int(rng.integers(5))]
     return [a]
 
 
@@ -55,9 +56,6 @@ def random_h0(rng, ops, anharmonic=True):
         H0 = H0 + w * n
         if anharmonic and isinstance(o, BosonOp) and rng.random() < 0.4:
             H0 = H0 + R(1, int(rng.integers(3, 8))) * n**2
-        if isinstance(o, LadderOp):
-            # a ladder spectrum is unbounded: make it non-degenerate with a quadratic term
-            H0 = H0 + R(1, 5) * n**2
     return H0
 
 
@@ -80,6 +78,17 @@ def random_h1(rng, ops, max_terms=4):
         if isinstance(o, BosonOp):
             cands.append(lo**2)
             cands.append(NumberOperator(o) * lo)
+    # number-dependent (longitudinal) drives: N_other x (o + o^dagger), sigma_z x (o + o^dagger)
+    for o1 in ops:
+        if isinstance(o1, FermionOp) or isinstance(o1, pauli.SigmaMinus):
+            continue
+        l1, h1 = gens_of(o1)
+        for o2 in ops:
+            if o2 is o1:
+                continue
+            cands.append(NumberOperator(o2) * l1)
+            if isinstance(o2, pauli.SigmaMinus):
+                cands.append(pauli.SigmaZ(o2.name) * l1)
     if not cands:
         cands = [gens_of(ops[0])[0]]
     k = int(rng.integers(1, min(max_terms, len(cands)) + 1))
@@ -140,7 +149,7 @@ def sylvester_residual_case(rng, counters):
     from pymablock.second_quantization import solve_sylvester_2nd_quant
     from vf.models.fock import Model
 
-    fam = str(rng.choice(["bosons", "fermions", "mixed", "spin"]))
+    fam = str(rng.choice(["bosons", "fermions", "mixed", "spin", "ladder"]))
     ops = modes(rng, fam)
     from pymablock.number_ordered_form import generator_types
 
